@@ -109,7 +109,13 @@ class BaseWorker:
                 'the connection to the compiler worker process is '
                 'unexpectedly closed')
 
-        data = await self._request(method_name, args)
+        try:
+            data = await self._request(method_name, args)
+        except BaseException:
+            # The request may or may not have been processed (e.g. the
+            # awaiting task was cancelled after the worker received it).
+            self._forget_state()
+            raise
 
         status, *data = pickle.loads(data)
 
@@ -127,10 +133,23 @@ class BaseWorker:
             exc.__formatted_error__ = tb
             raise exc
         else:
+            # The call ran to completion in the worker (possibly replacing
+            # its state), but we have no result to tell what it holds now.
+            self._forget_state()
             exc = RuntimeError(
                 'could not serialize result in worker subprocess')
             exc.__formatted_error__ = data[0]
             raise exc
+
+    def _forget_state(self):
+        # Forget what the worker is believed to hold, so that the next
+        # request transfers the complete state again instead of trusting
+        # a record that may no longer match the worker.
+        if self._dbs is not None:
+            self._dbs = immutables.Map()
+        self._global_schema_pickle = None
+        self._system_config = None
+        self._last_pickled_state = None
 
     async def _request(self, method_name, args):
         msg = pickle.dumps((method_name, args))
